@@ -327,7 +327,7 @@ func permutedOrSorted(lp lk.LP, v, permuted val.V) val.V {
 }
 
 var c05Part = evid.Part[C05Case]{
-	Prop: "C05", Name: "history", Quick: 2000, Thorough: 100000,
+	Prop: "C05", Name: "history", Quick: 2000, Thorough: 1000000,
 	Rule: "history of ≤25 store/compute/load/loadraw/loadplusraw/fill operations on one link system (default or private registry with CIDv0) and one storage (memstore, cidlink.Memory), values drawn per codec domain, link prototypes over CID version × 5 codecs × 10 hash functions × full/truncated(≥8 bytes)/-1 lengths; non-trivial = a store followed by a load of that link, and ≥2 prototypes or implementations in the history; distinct by the whole history",
 	Gen: func(t *rapid.T) C05Case {
 		c := C05Case{Storage: rapid.SampledFrom([]string{"memstore", "cidmemory"}).Draw(t, "storage"), Private: rapid.Bool().Draw(t, "private")}
